@@ -530,3 +530,100 @@ Proof.
     pose proof (Hd k Hk) as H1. cbv beta in H2, H3.
     apply (flank_mid_between false sig _ _ m Hm2); lia.
 Qed.
+
+(* ------------------------------------------------------------------ *)
+(* Z8: alternating sequences that start and end with the same kind     *)
+(* (what find_extrema returns with first_extrema = None):              *)
+(* p0 < t0 < p1 < ... < t(n-1) < pn  and  t0 < p0 < ... < p(n-1) < tn  *)
+
+Theorem find_zerox_peak_both_ends sig peaks troughs :
+  length peaks = S (length troughs) -> troughs <> [] ->
+  (forall k, k < length troughs -> (nth k peaks 0 < nth k troughs 0 < nth (S k) peaks 0)%Z) ->
+  Forall (fun z => (0 <= z < Z.of_nat (length sig))%Z) peaks ->
+  Forall (fun z => (0 <= z < Z.of_nat (length sig))%Z) troughs ->
+  exists rises decays,
+    find_zerox sig peaks troughs = Ok (rises, decays) /\
+    length decays = length troughs /\
+    length rises = length troughs /\
+    (forall k, k < length troughs -> exists m, nth_error decays k = Some m /\
+       flank_mid false sig (nth k peaks 0%Z) (nth k troughs 0%Z) = Ok m) /\
+    (forall k, k < length troughs -> exists m, nth_error rises k = Some m /\
+       flank_mid true sig (nth k troughs 0%Z) (nth (S k) peaks 0%Z) = Ok m).
+Proof.
+  intros HL Hne Halt HFp HFt.
+  destruct (flank_mids_spec true sig (length peaks - 1) troughs peaks 1) as (rises & HR & HRl & HRn).
+  { intros idx Hidx. rewrite Nat.add_1_r.
+    pose proof (Halt idx ltac:(lia)) as H1.
+    pose proof (Forall_nth_Z _ troughs idx HFt ltac:(lia)) as H2.
+    pose proof (Forall_nth_Z _ peaks (S idx) HFp ltac:(lia)) as H3.
+    cbv beta in H2, H3. repeat split; lia. }
+  destruct (flank_mids_spec false sig (length troughs) peaks troughs 0) as (decays & HD & HDl & HDn).
+  { intros idx Hidx. rewrite Nat.add_0_r.
+    pose proof (Halt idx ltac:(lia)) as H1.
+    pose proof (Forall_nth_Z _ peaks idx HFp ltac:(lia)) as H2.
+    pose proof (Forall_nth_Z _ troughs idx HFt ltac:(lia)) as H3.
+    cbv beta in H2, H3. repeat split; lia. }
+  exists rises, decays.
+  split; [|split; [exact HDl|split; [lia|split]]].
+  - unfold find_zerox.
+    destruct troughs as [|t0 tr] eqn:Et; [congruence|].
+    destruct peaks as [|p0 pr] eqn:Ep; [cbn [length] in HL; lia|].
+    rewrite <- Ep, <- Et in *.
+    assert (Hpt : (p0 <? t0)%Z = true).
+    { apply Z.ltb_lt. specialize (Halt 0). rewrite Ep, Et in Halt. cbn [nth length] in Halt.
+      apply Halt. lia. }
+    rewrite Hpt. cbv iota beta.
+    assert (E1 : (Z.of_nat (length peaks) - 1)%Z = Z.of_nat (length peaks - 1)).
+    { rewrite Ep. cbn [length]. lia. }
+    rewrite E1. change (1 - 0) with 1. rewrite HR. cbn [bind]. rewrite HD. cbn [bind]. reflexivity.
+  - intros k Hk. destruct (HDn k ltac:(lia)) as [m [Hm1 Hm2]].
+    rewrite Nat.add_0_r in Hm2. exists m. split; assumption.
+  - intros k Hk. destruct (HRn k ltac:(lia)) as [m [Hm1 Hm2]].
+    rewrite Nat.add_1_r in Hm2. exists m. split; assumption.
+Qed.
+
+Theorem find_zerox_trough_both_ends sig peaks troughs :
+  length troughs = S (length peaks) -> peaks <> [] ->
+  (forall k, k < length peaks -> (nth k troughs 0 < nth k peaks 0 < nth (S k) troughs 0)%Z) ->
+  Forall (fun z => (0 <= z < Z.of_nat (length sig))%Z) peaks ->
+  Forall (fun z => (0 <= z < Z.of_nat (length sig))%Z) troughs ->
+  exists rises decays,
+    find_zerox sig peaks troughs = Ok (rises, decays) /\
+    length rises = length peaks /\
+    length decays = length peaks /\
+    (forall k, k < length peaks -> exists m, nth_error rises k = Some m /\
+       flank_mid true sig (nth k troughs 0%Z) (nth k peaks 0%Z) = Ok m) /\
+    (forall k, k < length peaks -> exists m, nth_error decays k = Some m /\
+       flank_mid false sig (nth k peaks 0%Z) (nth (S k) troughs 0%Z) = Ok m).
+Proof.
+  intros HL Hne Halt HFp HFt.
+  destruct (flank_mids_spec true sig (length peaks) troughs peaks 0) as (rises & HR & HRl & HRn).
+  { intros idx Hidx. rewrite Nat.add_0_r.
+    pose proof (Halt idx ltac:(lia)) as H1.
+    pose proof (Forall_nth_Z _ troughs idx HFt ltac:(lia)) as H2.
+    pose proof (Forall_nth_Z _ peaks idx HFp ltac:(lia)) as H3.
+    cbv beta in H2, H3. repeat split; lia. }
+  destruct (flank_mids_spec false sig (length troughs - 1) peaks troughs 1) as (decays & HD & HDl & HDn).
+  { intros idx Hidx. rewrite Nat.add_1_r.
+    pose proof (Halt idx ltac:(lia)) as H1.
+    pose proof (Forall_nth_Z _ peaks idx HFp ltac:(lia)) as H2.
+    pose proof (Forall_nth_Z _ troughs (S idx) HFt ltac:(lia)) as H3.
+    cbv beta in H2, H3. repeat split; lia. }
+  exists rises, decays.
+  split; [|split; [exact HRl|split; [lia|split]]].
+  - unfold find_zerox.
+    destruct peaks as [|p0 pr] eqn:Ep; [congruence|].
+    destruct troughs as [|t0 tr] eqn:Et; [cbn [length] in HL; lia|].
+    rewrite <- Ep, <- Et in *.
+    assert (Hpt : (p0 <? t0)%Z = false).
+    { apply Z.ltb_ge. specialize (Halt 0). rewrite Ep, Et in Halt. cbn [nth length] in Halt.
+      assert (t0 < p0)%Z by (apply Halt; lia). lia. }
+    rewrite Hpt. cbv iota beta.
+    assert (E1 : (Z.of_nat (length troughs) - 1)%Z = Z.of_nat (length troughs - 1)).
+    { rewrite Et. cbn [length]. lia. }
+    rewrite E1. change (1 - 1) with 0. rewrite HR. cbn [bind]. rewrite HD. cbn [bind]. reflexivity.
+  - intros k Hk. destruct (HRn k ltac:(lia)) as [m [Hm1 Hm2]].
+    rewrite Nat.add_0_r in Hm2. exists m. split; assumption.
+  - intros k Hk. destruct (HDn k ltac:(lia)) as [m [Hm1 Hm2]].
+    rewrite Nat.add_1_r in Hm2. exists m. split; assumption.
+Qed.
